@@ -102,7 +102,7 @@ def _run_job(arg):
     return r
 
 
-def run_jobs(fn, jobs, mir_text, src_root, extra=None, procs=None):
+def run_jobs(fn, jobs, mir_text, src_root, extra=None, procs=None, job_timeout=None):
     """run fn(job) for every job in forked worker processes; fn must be a module-level function.
     Own single-threaded scheduler (no multiprocessing.Pool: its handler threads fork replacement workers from a threaded
     parent, which deadlocked children twice).  A worker that dies (crash, OOM kill) makes its job inconclusive and is
@@ -115,6 +115,7 @@ def run_jobs(fn, jobs, mir_text, src_root, extra=None, procs=None):
         _init_worker(mir_text, src_root, extra)
         return [_run_job((fn, j)) for j in jobs]
     deadline = time.time() + float(os.environ.get('VERIF_POOL_DEADLINE_S', '7200'))
+    job_timeout = float(os.environ.get('VERIF_JOB_TIMEOUT_S', job_timeout or 1800))
     results = [None] * len(jobs)
     nxt = 0
     workers = {}          # result fd -> [pid, job fd (write), current job index, read buffer]
@@ -161,7 +162,7 @@ def run_jobs(fn, jobs, mir_text, src_root, extra=None, procs=None):
                 os._exit(code)
         os.close(jr)
         os.close(rw)
-        workers[rr] = [pid, jw, None, b'']
+        workers[rr] = [pid, jw, None, b'', time.time()]
         return rr
 
     def feed(rr):
@@ -169,6 +170,7 @@ def run_jobs(fn, jobs, mir_text, src_root, extra=None, procs=None):
         w = workers[rr]
         if nxt < len(jobs):
             w[2] = nxt
+            w[4] = time.time()
             os.write(w[1], struct.pack('<q', nxt))
             nxt += 1
         else:
@@ -202,7 +204,17 @@ def run_jobs(fn, jobs, mir_text, src_root, extra=None, procs=None):
             left = deadline - time.time()
             if left <= 0:
                 break
-            ready, _, _ = select.select(list(workers), [], [], min(left, 30.0))
+            ready, _, _ = select.select(list(workers), [], [], min(left, 10.0))
+            now = time.time()
+            for rr in [r_ for r_ in workers if r_ not in ready]:
+                w = workers[rr]
+                if w[2] is not None and now - w[4] > job_timeout:
+                    k = w[2]
+                    retire(rr, kill=True)
+                    results[k] = {'status': 'inconclusive', 'reason': 'job exceeded its time limit of %.0f s (worker killed)' % job_timeout,
+                                  'job': repr(jobs[k])[:160]}
+                    if nxt < len(jobs):
+                        feed(spawn())
             for rr in ready:
                 w = workers[rr]
                 chunk = os.read(rr, 1 << 20)
@@ -304,7 +316,7 @@ class Check:
 
     def jobs(self, fn, jobs, extra=None, procs=None):
         t = time.time()
-        res = run_jobs(fn, jobs, self.mir_text, self.ov.dir, extra, procs)
+        res = run_jobs(fn, jobs, self.mir_text, self.ov.dir, extra, procs, job_timeout=900 if self.tier == 'quick' else 3600)
         for r in res:
             self.absorb(r)
         slow = sorted(((r.get('wall_s', 0), str(r.get('job'))[:60]) for r in res), reverse=True)[:3]
